@@ -115,8 +115,8 @@ Agg(fn, e, keys, grp) ==
 RECURSIVE PyTruth(_)
 PyTruth(a) ==
     IF a.f # "op" THEN -1
-    ELSE IF a.op = "eq" THEN B(a.args[1] = a.args[2])
-    ELSE IF a.op = "ne" THEN B(a.args[1] # a.args[2])
+    ELSE IF a.op = "eq" THEN 0      \* the operands' target code objects are created per visit: never identical
+    ELSE IF a.op = "ne" THEN 1
     ELSE IF a.op = "not" THEN (IF PyTruth(a.args[1]) = -1 THEN -1 ELSE 1 - PyTruth(a.args[1]))
     ELSE -1
 OpVal(e, a1, a2) ==
